@@ -249,8 +249,11 @@ Definition getitem (v : impl) (aa : str) (item : str) : res Z :=
 Definition is_stop (v : impl) (aa : str) (codon : str) : res bool :=
   bind (getitem v aa codon) (fun a => Ok (a =? ch_star)).
 
-(** new [GeneticCode.translate(dna, start, rc)] *)
-Definition translate (aa : str) (s : str) (start : Z) (rc : bool) : str :=
+(** new [GeneticCode.translate(dna, start, rc)] as it stood before the minus-strand repair
+    (finding C12-1): the window is always cut on the plus strand -- drop [start] symbols on the
+    left, truncate to a multiple of 3 on the right -- and only then read with the anticodon table
+    and reversed.  Kept as a regression witness. *)
+Definition translate_pinned (aa : str) (s : str) (start : Z) (rc : bool) : str :=
   let dna := if start =? 0 then s else slice_from s start in
   let diff := zlen dna mod 3 in
   let dna := if diff =? 0 then dna else slice_to dna (- diff) in
@@ -259,22 +262,28 @@ Definition translate (aa : str) (s : str) (start : Z) (rc : bool) : str :=
   if rc then rev (convert minus_src cs seq)
   else convert plus_src cs seq.
 
+Definition sixframes_pinned (aa : str) (s : str) : list (bool * Z * str) :=
+  flat_map (fun rc => map (fun start => (rc, start, translate_pinned aa s start rc)) [0; 1; 2]) [false; true].
+
+(** new [GeneticCode.translate(dna, start, rc)] with the repair proposed in
+    notes/proposed_fixes/C12-1.diff: frames of the minus strand are counted from the 5' end of
+    the reverse complement, i.e.
+      if start: dna = dna[: max(len(dna) - start, 0)] if rc else dna[start:]
+      if diff := len(dna) % 3: dna = dna[diff:] if rc else dna[:-diff]           *)
+Definition translate (aa : str) (s : str) (start : Z) (rc : bool) : str :=
+  let dna := if start =? 0 then s
+             else if rc then slice_to s (Z.max (zlen s - start) 0) else slice_from s start in
+  let diff := zlen dna mod 3 in
+  let dna := if diff =? 0 then dna
+             else if rc then slice_from dna diff else slice_to dna (- diff) in
+  let seq := to_kmer_indices dna in
+  let cs := code_seq aa in
+  if rc then rev (convert minus_src cs seq)
+  else convert plus_src cs seq.
+
 (** new [GeneticCode.sixframes]: (strand, start, translation) for ("+","-") x range(3) *)
 Definition sixframes (aa : str) (s : str) : list (bool * Z * str) :=
   flat_map (fun rc => map (fun start => (rc, start, translate aa s start rc)) [0; 1; 2]) [false; true].
-
-(** the corrected minus-strand handling proposed for the frame defect (frames of the minus
-    strand are counted from the 5' end of the reverse complement): drop [start] symbols from
-    the 3' end of the plus strand and truncate to a multiple of 3 from the left *)
-Definition translate_fixed (aa : str) (s : str) (start : Z) (rc : bool) : str :=
-  if rc then
-    let dna := if start =? 0 then s else slice_to s (Z.max (zlen s - start) 0) in
-    let diff := zlen dna mod 3 in
-    let dna := if diff =? 0 then dna else slice_from dna diff in
-    rev (convert minus_src (code_seq aa) (to_kmer_indices dna))
-  else translate aa s start false.
-Definition sixframes_fixed (aa : str) (s : str) : list (bool * Z * str) :=
-  flat_map (fun rc => map (fun start => (rc, start, translate_fixed aa s start rc)) [0; 1; 2]) [false; true].
 
 (* ------------------------------------------------------------------ old GeneticCode *)
 
@@ -299,6 +308,20 @@ Definition sixframes_old (aa : str) (m : moltype) (s : str) : res (list str) :=
 
 (* ------------------------------------------------------------------ sequences: stop handling *)
 
+(** Two findings of this property live in this part of the code; the model carries one flag
+    for each so that the code before and after the proposed repairs
+    (notes/proposed_fixes/C12-2.diff, C12-3.diff) can both be run:
+      [fix_empty]  has_terminal_stop answers False for a sequence with no residues
+                   (before: gc.is_stop("") raised InvalidCodonError, a KeyError)
+      [fix_aln]    the collection / alignment level get_translation, having dealt with terminal
+                   stops itself, calls the per-sequence get_translation with trim_stop=False
+                   (before: the alignment let the per-row call use its default trim_stop=True, so
+                   trim_stop=False was ignored; alignment and collection trimmed a second time, so
+                   a stop codon in front of the terminal one was silently removed too) *)
+Section StopHandling.
+Variable fix_empty : bool.
+Variable fix_aln : bool.
+
 Definition degap (s : str) : str := filter (fun c => negb (c =? ch_gap)) s.
 Definition has_gap (s : str) : bool := memZ ch_gap s.
 (** [s[-3:]] *)
@@ -307,7 +330,8 @@ Definition last3 (s : str) : str := slice_from s (-3).
 (** [Sequence.has_terminal_stop(gc, strict)] (old and new have the same body) *)
 Definition has_terminal_stop (v : impl) (aa : str) (s : str) (strict : bool) : res bool :=
   let d := degap s in
-  if zlen d mod 3 =? 0 then is_stop v aa (last3 d)
+  if fix_empty && is_nil d then Ok false
+  else if zlen d mod 3 =? 0 then is_stop v aa (last3 d)
   else if strict then Err E_Alpha
   else Ok false.
 
@@ -381,7 +405,8 @@ Definition coll_trim_old (aa : str) (seqs : list str) (strict : bool) : res (lis
 Definition coll_get_translation_old (aa : str) (seqs : list str) (incomplete_ok include_stop trim_stop : bool)
   : res (list str) :=
   bind (if trim_stop && negb include_stop then coll_trim_old aa seqs (negb incomplete_ok) else Ok seqs)
-    (fun seqs' => mapM (fun s => seq_get_translation_old aa s true include_stop trim_stop) seqs').
+    (fun seqs' => mapM (fun s => seq_get_translation_old aa s true include_stop
+                                   (if fix_aln then false else trim_stop)) seqs').
 
 (** new [SequenceCollection.get_translation] *)
 Definition coll_get_translation_new (aa : str) (seqs : list str) (incomplete_ok include_stop trim_stop : bool)
@@ -399,13 +424,15 @@ Definition same_lengths (l : list str) : bool :=
   | a :: r => forallb (fun b => zlen b =? zlen a) r
   end.
 
-(** old [AlignmentI.get_translation]: the per-row call does not forward [trim_stop] *)
+(** old [AlignmentI.get_translation] *)
 Definition aln_get_translation_old (aa : str) (rows : list str) (incomplete_ok include_stop trim_stop : bool)
   : res (list str) :=
   bind (if negb trim_stop || include_stop then Ok rows else aln_trim_old aa rows (negb incomplete_ok))
     (fun rows' =>
-       bind (mapM (fun s => seq_get_translation_old aa s incomplete_ok include_stop true) rows')
+       bind (mapM (fun s => seq_get_translation_old aa s incomplete_ok include_stop (if fix_aln then false else true)) rows')
          (fun peps => if same_lengths peps then Ok peps else Err E_Value)).
+
+End StopHandling.
 
 (* ------------------------------------------------------------------ IUPAC ambiguity *)
 
